@@ -113,7 +113,7 @@ def build_engine():
     eng = os.path.join(ROOT, "engine")
     cpps = sorted(glob.glob(os.path.join(eng, "*.cpp")))
     hpps = sorted(glob.glob(os.path.join(eng, "*.hpp"))) + [os.path.join(REPO, "src", "assemblyline.h")]
-    cxxflags = f"-std=gnu++17 -O1 -g {SAN} -fno-sanitize=enum -I{REPO}/src -I{eng}"
+    cxxflags = f"-std=gnu++17 -O1 -g {SAN} -fno-sanitize=enum -Wno-deprecated-declarations -I{REPO}/src -I{eng}"
     odir = os.path.join(BUILD, "engine")
     os.makedirs(odir, exist_ok=True)
     hdg = digest(hpps, cxxflags)
